@@ -73,7 +73,7 @@ ProbeStrs == SetToSeq({"join(7..3,4..1)", "join(2..1,2..1)", "join(5..4,5..2)", 
    "join(1..2,3..4,5..6,7..8,9..10,11..12,13..14,15..16,17..18,19..20,21..22,23..24)", "1.5", "join(1.5,7.9)", "order(<1..2,3^4,5,6..>7)"})
 NItems == IF Mode = "terms" THEN Len(TermSeq) ELSE NStrings
 NBatches == (NItems + Batch - 1) \div Batch
-PickedB == SelectSeq([j \in 1..NBatches |-> j], LAMBDA j : j % Stride = Offset % Stride)
+PickedB == SelectSeq([j \in 1..NBatches |-> j], LAMBDA j : (j + (j \div Stride) + (j \div (Stride * Stride))) % Stride = Offset % Stride)
 
 BatchJson(b) ==
   LET lo == (b - 1) * Batch
